@@ -16,14 +16,14 @@ if [ -n "$demo" ] && grep -q "^package internal" "$demo"; then pkgdir=internal; 
 [ -n "$demo" ] && cp "$demo" $pkgdir/
 tname=$(grep -o "func Test[A-Za-z0-9_]*" "$demo" | head -1 | sed 's/func //')
 echo "== demo on unmodified tree ($tname)"
-(cd $pkgdir && go test -vet=off -count=1 -run "^${tname}\$" . 2>&1 | tail -3)
+(cd $pkgdir && unshare -rn bash -c "ip link set lo up; go test -vet=off -count=1 -run '^${tname}\$' . 2>&1" | tail -3)
 git apply $M/patch.diff || { echo "PATCH DOES NOT APPLY"; exit 3; }
 echo "== build + suite with the patch"
 rm -f $pkgdir/$(basename "$demo")
-go build ./... && go test -vet=off -count=1 ./... 2>&1 | grep -v "no test files" | tail -4
+go build ./... && unshare -rn bash -c "ip link set lo up; go test -vet=off -count=1 ./... 2>&1" | grep -v "no test files" | tail -4
 [ -n "$demo" ] && cp "$demo" $pkgdir/
 echo "== demo with the patch"
-(cd $pkgdir && go test -vet=off -count=1 -run "^${tname}\$" . 2>&1 | tail -4)
+(cd $pkgdir && unshare -rn bash -c "ip link set lo up; go test -vet=off -count=1 -run '^${tname}\$' . 2>&1" | tail -4)
 rm -f $pkgdir/$(basename "$demo")
 for P in "$@"; do
   echo "== vcheck $P against the mutant"
